@@ -10,10 +10,15 @@
    commits 7206c30 (F3, 3 of 4 sites), eee123e (F4), 665ed14 (N4), b50fe2e (N6) these constants
    are `true`, i.e. THE CURRENT MODEL IS THE [true] VARIANT and the in-bounds theorems below
    (without suffix) are statements about it.  `_pinned_refuted` theorems are a historical
-   record about the [false] variant = the code at the pinned commit 380c75d.  `_refuted`
-   without `pinned` = defects still present in /repo: the 4th F3 site
-   (ancestor_mapper_init_ancestors, kept because tests/test_lowlevel.py::test_link_ancestors
-   relies on it), C09-N1, N2, N3. *)
+   record about the [false] variant = the code at the pinned commit 380c75d.  Since the
+   second batch of fix: commits (6ee6654 N1, c0d33d0 N2, b6b6f56 N3, e0eff6d N5, 91f5d06 N8,
+   a3d66b3 N9) the same holds for those entries: the unsuffixed in-bounds theorems are about
+   the [true] / checked variants = the code now in /repo (for N1 the constant
+   C09_tree_id_parse_checked is re-read on every run; for N2, N3, N5, N8, N9 the findings entry
+   is gone, so the monitor reports any recurrence as a VIOLATION).  The ONLY `_refuted` theorem
+   about code still in /repo is link_ancestors_ancestors_guard_refuted (4th F3 site,
+   ancestor_mapper_init_ancestors, kept because tests/test_lowlevel.py::test_link_ancestors
+   relies on it); `_mutant_refuted` theorems are about seeded changes, not about /repo. *)
 From Coq Require Import List ZArith Bool.
 From TskVerif Require Import Base.Common C09.Guards C09.GuardProofs C09.MapMutations C09.SeekProofs C09.RatesProofs C09.Guards2 C09.Guard2Proofs C09.IndexProofs.
 Import ListNotations.
@@ -48,9 +53,10 @@ Theorem guard_implies_in_bounds_depth : forall fuel parent N x,
   parents_ok parent N -> Tree_depth fuel parent N x <> OOB.
 Proof. exact GuardProofs.guard_implies_in_bounds_tree_depth. Qed.
 
-(* finding C09-N1: format "I" accepts a huge id as an alias of a small one; with a
-   range-checking converter only ids in [0, N] are accepted *)
-Theorem tree_array_huge_id_refuted :
+(* finding C09-N1 (fixed 6ee6654): at the pinned commit format "I" accepted a huge id as an alias
+   of a small one; with the range-checking format now in /repo only ids in [0, N] are accepted
+   (current model: Tree_array_get_checked_parse / with_id_parse true) *)
+Theorem tree_array_huge_id_pinned_refuted :
   exists N x v, N < x /\ Tree_array_get (alloc (N + 1) 7) N x = Ok v.
 Proof. exact GuardProofs.tree_array_huge_id_refuted. Qed.
 
@@ -119,14 +125,14 @@ Theorem guard_implies_in_bounds_check_sample_sets : forall N imap sizes flat,
   tsk_treeseq_check_sample_sets N imap sizes flat <> OOB.
 Proof. exact GuardProofs.guard_implies_in_bounds_check_sample_sets. Qed.
 
-(* finding C09-N2 *)
-Theorem pair_coalescence_rates_refuted :
+(* finding C09-N2 (fixed c0d33d0): pinned order of the checks *)
+Theorem pair_coalescence_rates_pinned_refuted :
   exists N imap times sizes flat,
     zlen imap = N /\ zlen times = N /\ sum_sizes sizes = zlen flat /\
     pair_coalescence_rates_entry false N imap times 0 sizes flat = OOB.
 Proof. exact GuardProofs.pair_coalescence_rates_refuted. Qed.
 
-Theorem guard_implies_in_bounds_pair_coalescence_rates_repaired : forall N imap times t0 sizes flat,
+Theorem guard_implies_in_bounds_pair_coalescence_rates : forall N imap times t0 sizes flat,
   zlen imap = N -> zlen times = N -> sum_sizes sizes = zlen flat ->
   pair_coalescence_rates_entry true N imap times t0 sizes flat <> OOB.
 Proof. exact RatesProofs.guard_implies_in_bounds_pair_coalescence_rates_repaired. Qed.
@@ -177,11 +183,11 @@ Theorem guard_implies_in_bounds_site_set_columns : forall position so mo sl ml,
   site_table_set_columns true position so mo sl ml <> OOB.
 Proof. exact GuardProofs.guard_implies_in_bounds_site_set_columns_repaired. Qed.
 
-(* finding C09-N3 *)
-Theorem two_branch_rows_empty_refuted : two_branch_row_span false [] = OOB.
+(* finding C09-N3 (fixed b6b6f56) *)
+Theorem two_branch_rows_empty_pinned_refuted : two_branch_row_span false [] = OOB.
 Proof. exact GuardProofs.two_branch_rows_empty_refuted. Qed.
 
-Theorem guard_implies_in_bounds_two_branch_rows_repaired : forall rows,
+Theorem guard_implies_in_bounds_two_branch_rows : forall rows,
   two_branch_row_span true rows <> OOB.
 Proof. exact GuardProofs.guard_implies_in_bounds_two_branch_rows_repaired. Qed.
 
@@ -264,29 +270,29 @@ Theorem guard_implies_in_bounds_gnn : forall N per_node sets focal,
   0 <= N -> zlen per_node = N -> gnn_init N per_node sets focal <> OOB.
 Proof. exact Guard2Proofs.guard_implies_in_bounds_gnn. Qed.
 
-(* finding C09-N5 (still in /repo): no integrity check before stored ids index per-node arrays *)
-Theorem delete_older_no_integrity_check_refuted :
+(* finding C09-N5 (fixed e0eff6d): at the pinned commit no integrity check preceded the use of stored ids *)
+Theorem delete_older_no_integrity_check_pinned_refuted :
   exists N node_time ep mn, zlen node_time = N /\ delete_older_entry false N node_time ep mn = OOB.
 Proof. exact Guard2Proofs.delete_older_no_integrity_check_refuted. Qed.
 
-Theorem guard_implies_in_bounds_delete_older_repaired : forall N node_time ep mn,
+Theorem guard_implies_in_bounds_delete_older : forall N node_time ep mn,
   zlen node_time = N -> delete_older_entry true N node_time ep mn <> OOB.
 Proof. exact Guard2Proofs.guard_implies_in_bounds_delete_older_repaired. Qed.
 
-Theorem ibd_run_no_integrity_check_refuted :
+Theorem ibd_run_no_integrity_check_pinned_refuted :
   exists N node_time amap ep ec, zlen node_time = N /\ zlen amap = N /\ ibd_run_entry false N node_time amap ep ec = OOB.
 Proof. exact Guard2Proofs.ibd_run_no_integrity_check_refuted. Qed.
 
-Theorem guard_implies_in_bounds_ibd_run_repaired : forall N node_time amap ep ec,
+Theorem guard_implies_in_bounds_ibd_run : forall N node_time amap ep ec,
   zlen node_time = N -> zlen amap = N -> ibd_run_entry true N node_time amap ep ec <> OOB.
 Proof. exact Guard2Proofs.guard_implies_in_bounds_ibd_run_repaired. Qed.
 
-(* finding C09-N8 (still in /repo) *)
-Theorem count_topologies_negative_id_refuted :
+(* finding C09-N8 (fixed 91f5d06) *)
+Theorem count_topologies_negative_id_pinned_refuted :
   exists N flags u i, zlen flags = N /\ u < 0 /\ count_topologies_sample_check false N flags u = Ok i.
 Proof. exact Guard2Proofs.count_topologies_negative_id_refuted. Qed.
 
-Theorem count_topologies_repaired_accepts_only_range : forall N flags u i,
+Theorem count_topologies_accepts_only_range : forall N flags u i,
   count_topologies_sample_check true N flags u = Ok i -> 0 <= u < N /\ i = u.
 Proof. exact Guard2Proofs.count_topologies_repaired_accepts_only_range. Qed.
 
@@ -294,11 +300,11 @@ Theorem guard_implies_in_bounds_count_topologies : forall b N flags u,
   zlen flags = N -> count_topologies_sample_check b N flags u <> OOB.
 Proof. exact Guard2Proofs.guard_implies_in_bounds_count_topologies. Qed.
 
-(* finding C09-N9 (new, still in /repo): check_positions is NaN-blind like F4 / N4 were *)
-Theorem check_positions_nan_refuted : forall L, check_positions false L [NaN] = true.
+(* finding C09-N9 (fixed a3d66b3): check_positions was NaN-blind like F4 / N4 *)
+Theorem check_positions_nan_pinned_refuted : forall L, check_positions false L [NaN] = true.
 Proof. exact Guard2Proofs.check_positions_nan_refuted. Qed.
 
-Theorem check_positions_repaired_in_range : forall L ps,
+Theorem check_positions_in_range : forall L ps,
   check_positions true L ps = true -> Forall (fun p => exists z, p = Fin z /\ 0 <= z < L) ps.
 Proof. exact Guard2Proofs.check_positions_repaired_in_range. Qed.
 
